@@ -48,7 +48,7 @@ def nearmiss_programs(ctx, rng, n):
             continue
         # C09's premise: no doc-comment line *starts with* a lowercase keyword. Keep the listed near-miss classes only.
         if ln["opener"] == "/*" or ln["pre"] in ("text", "slashes", "slashes0", "tabslashes") or ln["kw"] in ("Immutable", "at_space_immutable", "no_at_immutable") \
-                or (ln["kw"] in ("immutable", "testonly", "mutable", "packageonly", "constructor", "implements") and ln["rest"] and ln["rest"][0] in ("L", "U", "D")):
+                or (ln["kw"] in ("immutable", "testonly", "mutable", "packageonly", "constructor", "implements") and ln["rest"] and ln["rest"][0] in ("L", "U", "D", "DA", "DO", "SL", "CO", "AM", "X")):
             text, _parts = gen_grammar.line_text(ln)
             inert.append(text)
     if len(inert) < 20:
@@ -81,6 +81,9 @@ def nearmiss_programs(ctx, rng, n):
         if i % 2 == 1:
             # comments that document a *member* (an interface method), not a top-level declaration
             d = d.replace("\tM(n int) string", "\t// M is the only method.\n\t// @testonly\n\t// @packageonly\n\tM(n int) string", 1)
+        if i % 2 == 0:
+            # keyword lines documenting *fields* of a struct that has a doc comment of its own
+            d = d.replace("\tX  int\n", "\t// @immutable\n\t// @testonly\n\t// @packageonly\n\t// @constructor NewT\n\tX  int\n", 1)
         if i % 4 == 3:
             # package documentation whose lines start with keywords
             d = "// Package d is documented at length.\n// @packageonly restrictions are deliberately absent here.\n// @testonly helpers live elsewhere.\n// @immutable\n" + d
